@@ -16,7 +16,7 @@ func init() {
 		Rule:  "case = (statement from the typed generator over the full language — scalar functions, aggregates, aliases, list/JSON indexing, IN, BETWEEN, ORDER BY, GROUP BY, LIMIT, PUT/REMOVE/DELETE; feature families switched per run — , generated store of 0..4 batches, batch size, cache switch). Each case is executed twice on equal simulated stores, once drained with Next and once with Batch; rows are compared by content in order (multiset inside ORDER BY tie runs), write statements by final store and mutation log. Row error with batch success, a panic or non-termination in one mode only, and any content difference are violations; batch-only error values are tolerated and counted. distinct_nontrivial counts distinct (plan-node chain, batch size, number of row polls, number of batch polls) among cases accepted by the planner that completed in at least one mode.",
 		Assumptions: []string{
 			"a batch-mode error where row mode completes is tolerated (vectorised evaluation cannot short-circuit & and |): the property allows this direction",
-			"quantile() is not generated (sketch-based)",
+			"quantile() is compared exactly: the sketch is a deterministic function of the values in scan order, which both modes share",
 			"substr arguments are kept in the range that cannot panic; ORDER BY is generated only over fields with a uniform dynamic type",
 		},
 		Real: "real: all of kvql from /repo's working tree; simulated: storage engine, caller",
@@ -187,6 +187,7 @@ func runC03(sc *Scenario, st *Stats) []Violation {
 	}
 	st.Inc("accepted")
 	st.Inc("kind:" + stmtKind(text))
+	noteLanguageFeatures(st, text)
 	shape := planShape(R.Explain)
 	cell := fmt.Sprintf("cache=%v", sc.Cfg.Cache)
 	mk := func(kind, detail, extra string) []Violation {
@@ -379,4 +380,34 @@ func shrinkQuery(sc *Scenario) []*Scenario {
 		out = out[:120]
 	}
 	return out
+}
+
+var languageFunctions = []string{"lower", "upper", "int", "float", "str", "is_int", "is_float", "substr", "json", "split",
+	"list", "float_list", "int_list", "flist", "ilist", "len", "join", "strlen", "cosine_distance", "l2_distance",
+	"count", "sum", "avg", "min", "max", "json_arrayagg", "group_concat", "quantile"}
+
+var languageKeywords = []string{" between ", " in ", " ^= ", " ~= ", " order by ", " group by ", " limit ", " as ", "!(", " | ", " & ", " and ", " or ", " / ", " * ", " - ", " + "}
+
+// noteLanguageFeatures counts which functions and operators occur in accepted
+// statements (reach of the generator, reported in the evidence).
+func noteLanguageFeatures(st *Stats, text string) {
+	for _, f := range languageFunctions {
+		if containsCall(text, f) {
+			st.Inc("fn:" + f)
+		}
+	}
+	for _, k := range languageKeywords {
+		if strings.Contains(text, k) {
+			st.Inc("op:" + strings.TrimSpace(k))
+		}
+	}
+}
+
+func containsCall(text, name string) bool {
+	for i := 0; i+len(name) < len(text); i++ {
+		if text[i:i+len(name)] == name && text[i+len(name)] == '(' && (i == 0 || !isIdent(text[i-1])) {
+			return true
+		}
+	}
+	return false
 }
